@@ -647,11 +647,14 @@ def run_check(prop, tier, seed, replay):
     build_times = {}
     sessions = {}
     triv = re.compile(prop['trivial_obs']) if prop['trivial_obs'] else None
+    hung = False
     for build in prop['builds']:
         exe, bdt = build_harness(build)
         build_times[build] = round(bdt, 1)
         for suite in prop['suites']:
             sessions[(build, suite)] = Session(exe, driver, suite, '%s_%s_%s' % (pid, build, suite))
+            if hung:
+                continue    # a case that never returns was found: that is the verdict, do not wait for it again in every build
             tp = os.path.join(WORK, 'trace_%s_%s_%s.txt' % (pid, build, suite))
             # corpus first
             corp = corpus_lines(suite)
@@ -680,7 +683,9 @@ def run_check(prop, tier, seed, replay):
                 # find the culprit: rerun with per-case announcement + flush
                 atp = tp + '.announce'
                 if crash[0] == 'gen':
-                    run_vmh(exe, ['gen', suite, tier, str(seed)], out_path=atp, timeout=prop['gen_timeout'] * 6,
+                    # a hang (TIMEOUT) recurs at the same case: the announcing re-run needs no more time than the first run
+                    run_vmh(exe, ['gen', suite, tier, str(seed)], out_path=atp,
+                            timeout=prop['gen_timeout'] * (1 if crash[1] == -999 else 6),
                             env={'VMH_ANNOUNCE': '1', 'VMH_FLUSH': '1'})
                 else:
                     run_vmh(exe, ['replay', suite], stdin_text='\n'.join(corp) + '\n', out_path=atp, timeout=600,
@@ -689,6 +694,8 @@ def run_check(prop, tier, seed, replay):
                 for l in open(atp, errors='replace'):
                     if l.startswith('#CASE '):
                         last = l[len('#CASE '):].strip()
+                if crash[1] == -999:
+                    hung = True
                 culprit = '%s %s => CRASH rc=%s' % (suite, last or '?', crash[1])
                 all_spec.append((build, suite, culprit))
                 notes.append('harness process died (rc=%s, %s) while running suite %s [%s]: %s'
